@@ -1,5 +1,5 @@
 (* C10, NNF: the model of NNFizer preserves the value of every formula under every
-   interpretation; shape theorem with the exact side condition; the refuting witness. *)
+   interpretation; shape theorem. *)
 From Coq Require Import List ZArith Bool String Reals.
 From PySMT.core Require Import Syntax SyntaxLemmas Sem.
 From PySMT.models Require Import Oracles C10Local Nnf.
@@ -67,14 +67,13 @@ Proof.
     destruct args as [|i [|th [|el [|d r]]]]; try solve [nnf_default pos].
     inversion IH as [|? ? IHi IH1]; subst. inversion IH1 as [|? ? IHt IH2]; subst.
     inversion IH2 as [|? ? IHe _]; subst.
-    assert (E : tv I (T OAnd [T OOr [nnf_p false i; nnf_p true th]; T OOr [nnf_p true i; nnf_p true el]])
-                = tv I (T OIte [i; th; el])).
-    { rewrite tv_and. cbn [forallb]. rewrite !tv_or. cbn [existsb].
-      rewrite (IHi false), (IHi true), (IHt true), (IHe true), tv_ite. cbn [pol].
-      destruct (tv I i), (tv I th), (tv I el); reflexivity. }
     destruct pos; cbn [nnf_p pol].
-    + exact E.
-    + rewrite tv_mk_not. now rewrite E.
+    + rewrite tv_and. cbn [forallb]. rewrite !tv_or. cbn [existsb].
+      rewrite (IHi false), (IHi true), (IHt true), (IHe true), tv_ite. cbn [pol].
+      destruct (tv I i), (tv I th), (tv I el); reflexivity.
+    + rewrite tv_and. cbn [forallb]. rewrite !tv_or. cbn [existsb].
+      rewrite (IHi false), (IHi true), (IHt false), (IHe false), tv_ite. cbn [pol].
+      destruct (tv I i), (tv I th), (tv I el); reflexivity.
 Qed.
 
 Theorem nnf_holds : forall t I, holds I (nnf t) <-> holds I t.
@@ -117,7 +116,7 @@ Proof.
     apply andb_true_iff in H. destruct H as [H He]. apply andb_true_iff in H. destruct H as [Hi Ht].
     inversion IH as [|? ? IHi IH1]; subst. inversion IH1 as [|? ? IHt IH2]; subst.
     inversion IH2 as [|? ? IHe _]; subst.
-    destruct pos; cbn [nnf_p mk_not]; cbn [boolish forallb]; rewrite !IHi, IHt, IHe; auto.
+    destruct pos; cbn [nnf_p]; cbn [boolish forallb]; rewrite !IHi, IHt, IHe; auto.
 Qed.
 
 (* C10, NNF, semantic clause *)
@@ -141,67 +140,58 @@ Proof. destruct vs; auto. Qed.
 Lemma nnf_shape_mk_exists vs b : nnf_shape b = true -> nnf_shape (mk_exists vs b) = true.
 Proof. destruct vs; auto. Qed.
 
-Lemma nnf_p_shape : forall t pos, boolish t = true -> no_neg_ite pos t = true -> nnf_shape (nnf_p pos t) = true.
+Lemma nnf_p_shape : forall t pos, boolish t = true -> nnf_shape (nnf_p pos t) = true.
 Proof.
-  induction t as [o args IH] using term_ind'. intros pos H N.
+  induction t as [o args IH] using term_ind'. intros pos H.
   destruct o;
     try solve [destruct pos; cbn [nnf_p];
                [cbn; apply (bool_atom_is_atom _ _ H)
                | rewrite bool_atom_not_not by exact H; cbn; apply (bool_atom_is_atom _ _ H)]].
-  - destruct args as [|b [|c r]]; cbn in H; try discriminate. cbn in N.
+  - destruct args as [|b [|c r]]; cbn in H; try discriminate.
     inversion IH as [|? ? IHb _]; subst.
     destruct pos; cbn [nnf_p]; [apply nnf_shape_mk_forall | apply nnf_shape_mk_exists]; auto.
-  - destruct args as [|b [|c r]]; cbn in H; try discriminate. cbn in N.
+  - destruct args as [|b [|c r]]; cbn in H; try discriminate.
     inversion IH as [|? ? IHb _]; subst.
     destruct pos; cbn [nnf_p]; [apply nnf_shape_mk_exists | apply nnf_shape_mk_forall]; auto.
-  - cbn in H, N. rewrite forallb_forall in H, N. rewrite Forall_forall in IH.
+  - cbn in H. rewrite forallb_forall in H. rewrite Forall_forall in IH.
     destruct pos; cbn [nnf_p]; [apply nnf_shape_mk_and | apply nnf_shape_mk_or];
       rewrite forallb_map; apply forallb_forall; intros x Hx; apply IH; auto.
-  - cbn in H, N. rewrite forallb_forall in H, N. rewrite Forall_forall in IH.
+  - cbn in H. rewrite forallb_forall in H. rewrite Forall_forall in IH.
     destruct pos; cbn [nnf_p]; [apply nnf_shape_mk_or | apply nnf_shape_mk_and];
       rewrite forallb_map; apply forallb_forall; intros x Hx; apply IH; auto.
-  - destruct args as [|s [|c r]]; cbn in H; try discriminate. cbn in N.
+  - destruct args as [|s [|c r]]; cbn in H; try discriminate.
     inversion IH as [|? ? IHs _]; subst. cbn [nnf_p]. auto.
-  - destruct args as [|a [|b [|c r]]]; cbn in H; try discriminate. cbn in N.
-    apply andb_true_iff in H. destruct H as [Ha Hb]. apply andb_true_iff in N. destruct N as [Na Nb].
-    inversion IH as [|? ? IHa IH1]; subst. inversion IH1 as [|? ? IHb _]; subst.
-    destruct pos; cbn [nnf_p mk_or mk_and]; cbn [nnf_shape forallb]; cbn [negb] in Na; rewrite IHa, IHb; auto.
-  - destruct args as [|a [|b [|c r]]]; cbn in H; try discriminate. cbn in N.
+  - destruct args as [|a [|b [|c r]]]; cbn in H; try discriminate.
     apply andb_true_iff in H. destruct H as [Ha Hb].
-    apply andb_true_iff in N. destruct N as [N Nb0]. apply andb_true_iff in N. destruct N as [N Nb1].
-    apply andb_true_iff in N. destruct N as [Na1 Na0].
+    inversion IH as [|? ? IHa IH1]; subst. inversion IH1 as [|? ? IHb _]; subst.
+    destruct pos; cbn [nnf_p mk_or mk_and]; cbn [nnf_shape forallb]; rewrite IHa, IHb; auto.
+  - destruct args as [|a [|b [|c r]]]; cbn in H; try discriminate.
+    apply andb_true_iff in H. destruct H as [Ha Hb].
     inversion IH as [|? ? IHa IH1]; subst. inversion IH1 as [|? ? IHb _]; subst.
     destruct pos; cbn [nnf_p]; cbn [nnf_shape forallb]; rewrite !IHa, !IHb; auto.
   - (* symbol *) destruct pos; cbn [nnf_p]; reflexivity.
   - (* ite *)
-    destruct args as [|i [|th [|el [|d r]]]]; cbn in H; try discriminate. cbn in N.
-    destruct pos; [|discriminate]. cbn in N.
+    destruct args as [|i [|th [|el [|d r]]]]; cbn in H; try discriminate.
     apply andb_true_iff in H. destruct H as [H He]. apply andb_true_iff in H. destruct H as [Hi Ht].
-    apply andb_true_iff in N. destruct N as [N Ne]. apply andb_true_iff in N. destruct N as [N Nt].
-    apply andb_true_iff in N. destruct N as [Ni1 Ni0].
     inversion IH as [|? ? IHi IH1]; subst. inversion IH1 as [|? ? IHt IH2]; subst.
     inversion IH2 as [|? ? IHe _]; subst.
-    cbn [nnf_p]; cbn [nnf_shape forallb]; rewrite !IHi, IHt, IHe; auto.
+    destruct pos; cbn [nnf_p]; cbn [nnf_shape forallb]; rewrite !IHi, IHt, IHe; auto.
 Qed.
 
-(* C10, NNF, shape clause: holds for inputs in which no Boolean ITE occurs under an odd number
-   of negations (antecedents of implications and both sides of <-> count) ... *)
-Theorem nnf_shape_partial : forall t, boolish t = true -> no_neg_ite true t = true -> nnf_shape (nnf t) = true.
+(* C10, NNF, shape clause (full, since /repo commit 777db40) *)
+Theorem nnf_shape_thm : forall t, boolish t = true -> nnf_shape (nnf t) = true.
 Proof. intros. now apply nnf_p_shape. Qed.
 
-(* ... and fails otherwise: the negation of a Boolean ITE keeps a negated conjunction *)
+(* the former refuting witness (negation of a Boolean ITE) is now normalised *)
 Definition nnf_witness : term :=
   T ONot [T OIte [TSym "a" TBool; TSym "b" TBool; TSym "c" TBool]].
-Theorem nnf_shape_refuted : exists t, boolish t = true /\ nnf_shape (nnf t) = false.
-Proof. exists nnf_witness. split; reflexivity. Qed.
-
 Example nnf_witness_value :
   nnf nnf_witness =
-  T ONot [T OAnd [T OOr [T ONot [TSym "a" TBool]; TSym "b" TBool]; T OOr [TSym "a" TBool; TSym "c" TBool]]].
+  T OAnd [T OOr [T ONot [TSym "a" TBool]; T ONot [TSym "b" TBool]]; T OOr [TSym "a" TBool; T ONot [TSym "c" TBool]]].
 Proof. reflexivity. Qed.
 
 (* the hypotheses are satisfiable by a non-trivial formula *)
 Example nnf_example :
   let t := T ONot [T OIff [TSym "a" TBool; T (OForall [("x", TInt)]) [T OLe [TSym "x" TInt; TIntC 0]]]] in
-  boolish t = true /\ no_neg_ite true t = true /\ term_eqb (nnf t) t = false.
+  boolish t = true /\ term_eqb (nnf t) t = false.
 Proof. repeat split. Qed.
